@@ -167,7 +167,7 @@ POST_SPELL = ["post", "rev", "r", "POST", "Rev", "R"]
 SEPS = ["", ".", "-", "_"]
 
 
-def spell(v, rng):
+def spell(v, rng, max_rel=None):
     """A random alternative spelling of v that Appendix B accepts and that
     denotes the same version."""
     out = ""
@@ -177,7 +177,8 @@ def spell(v, rng):
         out += "%s%d!" % ("0" * rng.randrange(0, 2), v["epoch"])
     rel = list(v["release"])
     for _ in range(rng.choice([0, 0, 1, 2])):
-        rel.append(0)
+        if max_rel is None or len(rel) < max_rel:
+            rel.append(0)
     out += ".".join(("0" * rng.choice([0, 0, 1])) + str(x) for x in rel)
     if v["pre"] is not None:
         lab, n = v["pre"]
